@@ -13,14 +13,17 @@ use crate::alpha::error::Error;
 use crate::alpha::included;
 
 use enumset::EnumSet;
-use std::collections::HashSet;
+use std::collections::BTreeSet;
 
 /// Share public symbols between modules.
 pub fn expand(modules: &mut [(std::path::PathBuf, Vec<Declaration>)])
 {
 	let keys: Vec<std::path::PathBuf> =
 		modules.iter().map(|(k, _v)| k.clone()).collect();
-	let mut imports = HashSet::new();
+	// An ordered set: the order in which imported declarations are spliced in
+	// must not depend on hash iteration order, or the generated IR differs
+	// from run to run.
+	let mut imports = BTreeSet::new();
 
 	for (offset_of_includer, module) in modules.iter_mut().enumerate()
 	{
